@@ -598,7 +598,9 @@ func walkQueryValues(doc *ast.QueryDocument, f func(v *ast.Value)) {
 // argument) answer from what was written: the first entry of the name, nil for a name nothing has, and for operations the
 // single operation when no name is asked for.
 func checkQueryLookups(x *core.Ctx, doc *ast.QueryDocument) {
-	bad := func(what, obs string) { x.Violate("lookup-helper("+what+")", obs, "the first listed entry of that name") }
+	bad := func(what, obs string) {
+		x.Violate("lookup-helper("+what+")", obs, "the first listed entry of that name")
+	}
 	x.Count("lookup_documents")
 	for i, op := range doc.Operations {
 		first := i
